@@ -27,6 +27,8 @@ TxOK(o, e) ==
   /\ o.auth_user = e.auth_user /\ o.auth_pass = e.auth_pass
   /\ o.res_protocol = Some(e.res_protocol) /\ o.status = Some(e.status) /\ o.status_number = e.status_number /\ o.message = Some(e.message)
   /\ HdrOK(o.res_headers, e.res_headers)
+  \* bodies: length and digest of the bytes handed to the body callbacks = the entity (decoded payload), coding recognised
+  /\ o.qbody = BodyDigest(e.req_body) /\ o.sbody = BodyDigest(e.res_body) /\ o.res_ce = CodingNumber(e.res_coding)
 Fidelity == LET r == Rows[k]  e == Expected(Exchange(r.i, r.n)) IN
             /\ Len(r.txs) = r.n
             /\ \A j \in 1..r.n : TxOK(r.txs[j], e[j])
